@@ -26,19 +26,19 @@ NA = {
 
 CHECKS = {
  "C04": dict(
-   text="Seeded search over operation histories (reads x mutators x settings changes x injected failures) on real Signal/AccSignal/Cluster objects; after every step every listed derived quantity of every object is compared with a per-observable pristine twin. A clean run is sampling evidence over the reported coverage matrix, not proof; exploration is the right level because the space of histories is unbounded and the defect class (a missing invalidation) shows within short histories.",
-   ref="4",
-   note="Trusted: NumPy/SciPy numerics, deepcopy fidelity of eqsig objects, the twin (same code, fresh object) as reference, so the verdict is history-independence and not numerical correctness. Fault seams are module globals rebound from /verif; no hook in /repo.",
-   technique="deterministic simulation: seeded operation/fault histories with reference twin oracle, ddmin-minimised replay"),
+   text="Seeded search over operation histories (reads, analysis calls on the object, mutators, settings changes, cluster operations; rejected arguments, allocation failures at the k-th array-building call inside eqsig.single and inside the back-end modules, strict floating point) on real Signal/AccSignal/Cluster objects. After every step every listed derived quantity of every object, read from a deep copy in a recorded pseudo-random order, is compared with a per-observable pristine twin; objects the step was not applied to must be exactly as they were (non-interference); a sample of states is also compared with a fresh object in a process that has executed nothing (clean-process reference). Directed sweeps enumerate reachable cache state x operation, operation x fault site, A-B-change-A settings histories and change-detection coincidences. A clean run is sampling evidence over the reported coverage, not proof; exploration is the right level because the space of histories is unbounded and this defect class shows within short histories.",
+   ref="4, 14",
+   note="Trusted: NumPy/SciPy numerics, deepcopy fidelity of eqsig objects, the twin and the clean-process reference (same code, fresh object) as reference, so the verdict is history-independence and not numerical correctness. Explicit generator calls with non-default arguments have no fresh-object reference and are held to non-interference only. Fault seams are module globals rebound from /verif; no hook in /repo.",
+   technique="deterministic simulation: seeded operation/fault histories with reference-twin and clean-process oracles, ddmin-minimised replay"),
  "C05": dict(
-   text="Seeded search over histories in a world of caller-owned buffers, signal objects and a cluster; after every step an ownership map demands that every buffer and object outside the step's declared write set is byte-identical, that values/npts/time stay consistent, and that every analysis call leaves all its array arguments bit-for-bit unchanged and is repeatable. Sampling evidence over the reported coverage matrices.",
-   ref="5",
-   note="Trusted: the declared write sets of the operation catalogue (an analysis call writes nothing; a mutator writes only its object), byte comparison through base arrays. Real eqsig, NumPy and SciPy; no stubs.",
-   technique="deterministic simulation: seeded caller/object histories with caller-scribble faults and an ownership-map oracle, ddmin-minimised replay"),
+   text="Seeded search over histories in a world of caller-owned buffers (arrays of several dtypes, lists, tuples, views, read-only views, 2-D arrays, arrays the library handed out), signal objects and a cluster, with caller writes (also to returned arrays), rejected arguments and allocation failures inside every eqsig module. After every step an ownership map demands that every buffer and object outside the step's declared write set is byte-identical, that values/npts/time are consistent (time exactly dt*[0..npts-1]), that every analysis call (109 catalogued functions) leaves all its array arguments bit-for-bit unchanged, leaves the derived quantities of the objects it was given unchanged, leaves NumPy's process-wide state unchanged, and gives the same outcome when repeated at once, later in the history, and (sampled) in a fresh process. Sampling evidence over the reported coverage matrices and sweeps.",
+   ref="5, 14",
+   note="Trusted: the declared write sets of the operation catalogue (an analysis call writes nothing; a mutator writes only its object), byte comparison through base arrays. A result that is a view of an input is not treated as a violation. Real eqsig, NumPy and SciPy; the only stubs are pass-through fault wrappers.",
+   technique="deterministic simulation: seeded caller/object histories with caller-scribble and allocation faults against an ownership-map oracle, ddmin-minimised replay"),
  "C16": dict(
-   text="Seeded search over save/overwrite/load histories on real files through wrapped open()/NumPy-opener seams with injected I/O errors (open, torn write, close, read) and a forced fallback parser branch; every fault-free load of a known path must return the saved record to the format's precision through every loader entry point. Sampling evidence over the reported coverage matrix.",
-   ref="6",
-   note="Trusted: the file model (last successful save wins; failed save makes the path unknown), the host file system, printable-ASCII labels. The only stubs are pass-through fault wrappers at the I/O seams.",
+   text="Seeded search over save/overwrite/load histories on real files through wrapped open()/NumPy-opener seams, over several names of a path, with injected I/O faults (open, torn write, close, deferred write error, short write, read errors) and a forced fallback parser branch (raised before or after the primary parser has consumed its input); every load of a path whose content the file model knows must return the saved record to the format's precision through every loader entry point; a save that returns normally is acknowledged. A directed sweep walks the full matrix save entry x load entry x dt class x npts class x parser branch x preceding event. Sampling evidence over the reported coverage matrix.",
+   ref="6, 14",
+   note="Trusted: the file model (last save that returned normally wins; a save that raised makes the path unknown), the host file system, printable-ASCII labels, finite samples. The only stubs are pass-through fault wrappers at the I/O seams.",
    technique="deterministic simulation: seeded file-operation histories with I/O fault injection against a file model, ddmin-minimised replay"),
 }
 
